@@ -455,6 +455,20 @@ def coll_oracle(interp, env, f, args, t, bb, path):
                 if best is None or (nm == "min_by_key" and r < best[0]) or (nm == "max_by_key" and r >= best[0]):
                     best = (r, x)
             return some(best[1]) if best else NONE
+        if nm in ("max_by", "min_by") and len(args) == 2:
+            best = None
+            for x in it.items:
+                if best is None:
+                    best = x
+                    continue
+                o = _call1(interp, args[1], [best, x])
+                if not (isinstance(o, Agg) and o.name == "core::cmp::Ordering"):
+                    return TOP
+                if nm == "max_by" and o.variant != "Greater":
+                    best = x
+                if nm == "min_by" and o.variant == "Greater":
+                    best = x
+            return some(best) if best is not None else NONE
         if nm in ("min", "max") and len(args) == 1:
             best = None
             for x in it.items:
